@@ -307,7 +307,20 @@ def run(ctx):
                             ctx.bad("R02.4", c, "value-part-unconstrained", "malformed regex literal: %s" % ex, (c, n.get("ln")))
     ctx.need("R02.4", "validation regex literal", nlit, 1)
     ctx.trust("ECMAScript `.` matches any character except line terminators (Appendix D.8)")
-    ctx.assume("the round-trip equation itself, interleavings of items, as<T>() numeric conversion and toggle bundling are not decided")
+    # ---- R02.6: an occurrence count per toggle - C11's counting rules re-evaluated (count reset to 0, one increment of the required form per token)
+    ctx.rule("R02.6", "a toggle's result is the number of its occurrences: counted from zero, once per token (R11.1/R11.6 re-evaluated)")
+    if ctx.prop == "C02":
+        from . import C11
+        sub = type(ctx)(ctx.prop, ctx.prog, ctx.tier)
+        C11.run(sub)
+        n6 = 0
+        for o in sub.obs:
+            if o.rule in ("R11.1", "R11.6"):
+                n6 += 1
+                o.rule = "R02.6"
+                ctx.obs.append(o)
+        ctx.need("R02.6", "toggle counting obligations shared with C11", n6, 5)
+    ctx.assume("the round-trip equation itself, interleavings of items and as<T>() numeric conversion are not decided")
 
 
 def _tag(f):
